@@ -7,7 +7,7 @@
    - crypto.pad is zero_pad. *)
 From Coq Require Import List Bool Arith NArith ZArith Lia.
 From Coq Require Import Init.Byte.
-From Bec2 Require Import Base.Result Base.Bytes Gen.Consts Model.Cbc Model.AesModes Proofs.CbcProofs.
+From Bec2 Require Import Base.Result Base.Bytes Gen.Consts Model.Cbc Model.AesSpec Model.AesModes Proofs.CbcProofs.
 Import ListNotations.
 Open Scope N_scope.
 
@@ -530,3 +530,512 @@ Qed.
 
 Theorem crypto_pad_eq d : crypto_pad d = zero_pad d.
 Proof. unfold crypto_pad, zero_pad. rewrite pad_length_eq. reflexivity. Qed.
+
+(* ---- CFB, OFB, CTR: drain hands all whole units (segments / bytes) beyond the 16 kept back
+   to the mode in one call; resumable because the mode functions are homomorphic on
+   unit-aligned concatenations ---------------------------------------------------------------- *)
+
+Lemma takeN_add {A} a b (l : list A) : takeN (a + b) l = takeN a l ++ takeN b (dropN a l).
+Proof.
+  rewrite !takeN_firstn, dropN_skipn, N2Nat.inj_add.
+  revert l. induction (N.to_nat a) as [|n IH]; intro l; [reflexivity|].
+  destruct l as [|x l]; [cbn; rewrite firstn_nil; reflexivity|].
+  cbn [Nat.add firstn skipn app]. f_equal. apply IH.
+Qed.
+Lemma dropN_add {A} a b (l : list A) : dropN (a + b) l = dropN b (dropN a l).
+Proof.
+  rewrite !dropN_skipn, N2Nat.inj_add.
+  revert l. induction (N.to_nat a) as [|n IH]; intro l; [reflexivity|].
+  destruct l as [|x l]; [cbn; rewrite skipn_nil; reflexivity|].
+  cbn [Nat.add skipn]. apply IH.
+Qed.
+Lemma takeN_blen_le {A} n (l : list A) : n <= blen l -> blen (takeN n l) = n.
+Proof. intro H. rewrite takeN_blen. lia. Qed.
+Lemma dropN_blen_le {A} n (l : list A) : n <= blen l -> blen (dropN n l) = blen l - n.
+Proof. intro H. rewrite dropN_blen. lia. Qed.
+
+Section Units.
+  Variable E D : bytes -> bytes -> bytes.
+
+  Definition unit_of (m : mode) : N := match m with CFB s => seg_of s | _ => 1 end.
+  Definition is_unit (m : mode) : Prop := match m with ECB | CBC => False | _ => True end.
+
+  Lemma seg_of_pos s : 0 < seg_of s.
+  Proof. unfold seg_of. destruct (s =? 0) eqn:H; [lia|apply N.eqb_neq in H; lia]. Qed.
+  Lemma unit_pos m : 0 < unit_of m.
+  Proof. destruct m; cbn [unit_of]; try lia. apply seg_of_pos. Qed.
+  Lemma unit_can m n : is_unit m -> can_consume m n = unit_of m * (n / unit_of m).
+  Proof.
+    destruct m; cbn [is_unit can_consume unit_of]; intro H; try contradiction; try reflexivity;
+      rewrite N.div_1_r; lia.
+  Qed.
+
+  Lemma drainF_unit m d k st buf : is_unit m ->
+    drainF E D m d k st buf =
+    if 16 <? blen buf then
+      let c := unit_of m * ((blen buf - 16) / unit_of m) in
+      if c =? 0 then Ok ([], st, buf)
+      else let* (o, st') := mode_crypt E D d m k st (takeN c buf) in Ok (o, st', dropN c buf)
+    else Ok ([], st, buf).
+  Proof.
+    intro Hm. unfold drainF. cbn [drain]. pose proof (unit_pos m) as Hu.
+    destruct (16 <? blen buf) eqn:E16; [|reflexivity]. apply N.ltb_lt in E16.
+    rewrite (unit_can m _ Hm). cbv zeta.
+    set (u := unit_of m) in *. set (c := u * ((blen buf - 16) / u)).
+    destruct (c =? 0) eqn:E0; [reflexivity|]. apply N.eqb_neq in E0.
+    destruct (mode_crypt E D d m k st (takeN c buf)) as [[o st']|e]; [|reflexivity].
+    cbn [bind app].
+    assert (Hc : c <= blen buf - 16) by (apply N.mul_div_le; lia).
+    destruct (length buf) as [|f] eqn:El; [unfold blen in E16; rewrite El in E16; lia|].
+    rewrite (drain_of_stable E D m d k f st' (dropN c buf) o); [reflexivity|].
+    right. rewrite (unit_can m _ Hm). fold u.
+    rewrite dropN_blen_le by lia.
+    replace (blen buf - c - 16) with ((blen buf - 16) mod u).
+    - rewrite N.div_small by (apply N.mod_lt; lia). lia.
+    - pose proof (N.div_mod (blen buf - 16) u ltac:(lia)) as Hd. fold c in Hd. lia.
+  Qed.
+
+  Section UnitResume.
+    Variable m : mode.
+    Variable d : direction.
+    Variable k : bytes.
+    Variable I : mstate -> Prop.
+    Hypothesis Hm : is_unit m.
+    Hypothesis hom : forall st x1 x2, I st ->
+      blen x1 mod unit_of m = 0 -> blen x2 mod unit_of m = 0 ->
+      mode_crypt E D d m k st (x1 ++ x2) =
+      let* (o1, st1) := mode_crypt E D d m k st x1 in
+      let* (o2, st2) := mode_crypt E D d m k st1 x2 in
+      Ok (o1 ++ o2, st2).
+
+    Lemma unit_resume st buf b : I st ->
+      drainF E D m d k st (buf ++ b) =
+      let* (o1, st1, r1) := drainF E D m d k st buf in
+      let* (o2, st2, r2) := drainF E D m d k st1 (r1 ++ b) in
+      Ok (o1 ++ o2, st2, r2).
+    Proof.
+      intro HI. pose proof (unit_pos m) as Hu. set (u := unit_of m) in *.
+      assert (Noop : drainF E D m d k st (buf ++ b) =
+                     let* (o2, st2, r2) := drainF E D m d k st (buf ++ b) in Ok ([] ++ o2, st2, r2)).
+      { destruct (drainF E D m d k st (buf ++ b)) as [[[o2 st2] r2]|e]; reflexivity. }
+      rewrite (drainF_unit m d k st buf Hm).
+      destruct (16 <? blen buf) eqn:E16; [|exact Noop]. apply N.ltb_lt in E16.
+      cbv zeta. fold u. set (a := blen buf - 16). set (c1 := u * (a / u)).
+      destruct (c1 =? 0) eqn:E1; [exact Noop|]. apply N.eqb_neq in E1.
+      assert (Hc1 : c1 <= a) by (apply N.mul_div_le; lia).
+      pose proof (N.div_mod a u ltac:(lia)) as Hda. fold c1 in Hda.
+      pose proof (N.mod_lt a u ltac:(lia)) as Hrho. set (rho := a mod u) in *.
+      set (c2 := u * ((rho + blen b) / u)).
+      assert (Hc : u * ((blen (buf ++ b) - 16) / u) = c1 + c2).
+      { rewrite blen_app. replace (blen buf + blen b - 16) with (a / u * u + (rho + blen b)) by lia.
+        rewrite N.div_add_l by lia. unfold c1, c2. lia. }
+      assert (Hc2 : c2 <= rho + blen b) by (apply N.mul_div_le; lia).
+      (* left-hand side *)
+      rewrite (drainF_unit m d k st (buf ++ b) Hm). fold u.
+      replace (16 <? blen (buf ++ b)) with true by (symmetry; apply N.ltb_lt; rewrite blen_app; lia).
+      cbv zeta. rewrite Hc.
+      replace (c1 + c2 =? 0) with false by (symmetry; apply N.eqb_neq; lia).
+      assert (Hr1 : blen (dropN c1 buf) = 16 + rho) by (rewrite dropN_blen_le by lia; lia).
+      destruct (c2 =? 0) eqn:E2.
+      - (* nothing more to hand over after the chunk b *)
+        apply N.eqb_eq in E2. rewrite E2, N.add_0_r.
+        rewrite takeN_app_le, dropN_app_le by lia.
+        destruct (mode_crypt E D d m k st (takeN c1 buf)) as [[o1 st1]|e]; [|reflexivity].
+        cbn [bind]. rewrite (drainF_unit m d k st1 (dropN c1 buf ++ b) Hm). fold u.
+        replace (u * ((blen (dropN c1 buf ++ b) - 16) / u)) with c2
+          by (rewrite blen_app, Hr1; unfold c2; f_equal; f_equal; lia).
+        rewrite E2. cbn [N.eqb].
+        destruct (16 <? blen (dropN c1 buf ++ b)); cbn [bind]; rewrite app_nil_r; reflexivity.
+      - apply N.eqb_neq in E2.
+        rewrite takeN_add, dropN_add, (takeN_app_le c1), (dropN_app_le c1) by lia.
+        rewrite (hom st (takeN c1 buf) (takeN c2 (dropN c1 buf ++ b)) HI).
+        2:{ rewrite takeN_blen_le by lia. unfold c1. rewrite N.mul_comm. apply N.mod_mul. lia. }
+        2:{ rewrite takeN_blen_le by (rewrite blen_app, Hr1; lia).
+            unfold c2. rewrite N.mul_comm. apply N.mod_mul. lia. }
+        destruct (mode_crypt E D d m k st (takeN c1 buf)) as [[o1 st1]|e]; [|reflexivity].
+        cbn [bind]. rewrite (drainF_unit m d k st1 (dropN c1 buf ++ b) Hm). fold u.
+        replace (u * ((blen (dropN c1 buf ++ b) - 16) / u)) with c2
+          by (rewrite blen_app, Hr1; unfold c2; f_equal; f_equal; lia).
+        replace (16 <? blen (dropN c1 buf ++ b)) with true
+          by (symmetry; apply N.ltb_lt; rewrite blen_app, Hr1; lia).
+        cbv zeta. replace (c2 =? 0) with false by (symmetry; apply N.eqb_neq; lia).
+        destruct (mode_crypt E D d m k st1 (takeN c2 (dropN c1 buf ++ b))) as [[o2 st2]|e]; reflexivity.
+    Qed.
+  End UnitResume.
+
+  (* ---- OFB: a byte-by-byte left-to-right loop ------------------------------------------------ *)
+
+  Lemma ofb_acc k : forall data reg rem acc,
+    ofb_loop E k reg rem data acc =
+    let* (o, reg', rem') := ofb_loop E k reg rem data [] in Ok (acc ++ o, reg', rem').
+  Proof.
+    induction data as [|p data IH]; intros reg rem acc.
+    - cbn. rewrite app_nil_r. reflexivity.
+    - cbn [ofb_loop].
+      destruct (match rem with
+                | [] => let* o := blkE E k reg in Ok ([], o)
+                | _ :: _ => Ok (reg, rem)
+                end) as [[reg1 rem1]|e]; [|reflexivity].
+      cbn [bind]. destruct rem1 as [|x rem2]; [reflexivity|].
+      rewrite (IH _ _ (acc ++ [xor_byte p x])), (IH _ _ ([] ++ [xor_byte p x])).
+      destruct (ofb_loop E k (reg1 ++ [x]) rem2 data []) as [[[o r1] r2]|e]; [|reflexivity].
+      cbn [bind app]. rewrite <- app_assoc. reflexivity.
+  Qed.
+
+  Lemma ofb_app k : forall a b reg rem,
+    ofb_loop E k reg rem (a ++ b) [] =
+    let* (o1, reg1, rem1) := ofb_loop E k reg rem a [] in
+    let* (o2, reg2, rem2) := ofb_loop E k reg1 rem1 b [] in
+    Ok (o1 ++ o2, reg2, rem2).
+  Proof.
+    induction a as [|p a IH]; intros b reg rem.
+    - cbn [app ofb_loop bind]. destruct (ofb_loop E k reg rem b []) as [[[o r1] r2]|e]; reflexivity.
+    - cbn [app ofb_loop].
+      destruct (match rem with
+                | [] => let* o := blkE E k reg in Ok ([], o)
+                | _ :: _ => Ok (reg, rem)
+                end) as [[reg1 rem1]|e]; [|reflexivity].
+      cbn [bind]. destruct rem1 as [|x rem2]; [reflexivity|].
+      rewrite (ofb_acc k (a ++ b)), (ofb_acc k a), IH.
+      destruct (ofb_loop E k (reg1 ++ [x]) rem2 a []) as [[[o1 r1] r2]|e]; [|reflexivity].
+      cbn [bind].
+      destruct (ofb_loop E k r1 r2 b []) as [[[o2 r3] r4]|e]; [|reflexivity].
+      cbn [bind app]. reflexivity.
+  Qed.
+
+  Lemma ofb_hom d k st x1 x2 :
+    mode_crypt E D d OFB k st (x1 ++ x2) =
+    let* (o1, st1) := mode_crypt E D d OFB k st x1 in
+    let* (o2, st2) := mode_crypt E D d OFB k st1 x2 in
+    Ok (o1 ++ o2, st2).
+  Proof.
+    assert (H : mode_encrypt E OFB k st (x1 ++ x2) =
+                let* (o1, st1) := mode_encrypt E OFB k st x1 in
+                let* (o2, st2) := mode_encrypt E OFB k st1 x2 in Ok (o1 ++ o2, st2)).
+    { cbn [mode_encrypt]. rewrite ofb_app.
+      destruct (ofb_loop E k (m_reg st) (m_rem st) x1 []) as [[[o1 r1] r2]|e]; [|reflexivity].
+      cbn [bind m_reg m_rem].
+      destruct (ofb_loop E k r1 r2 x2 []) as [[[o2 r3] r4]|e]; reflexivity. }
+    destruct d; exact H.
+  Qed.
+
+  (* ---- CFB: one segment per iteration ------------------------------------------------------------ *)
+
+  Lemma cfb_acc fb seg k : forall f reg data acc,
+    cfb_loop E f fb seg k reg data acc =
+    let* (o, reg') := cfb_loop E f fb seg k reg data [] in Ok (acc ++ o, reg').
+  Proof.
+    induction f as [|f IH]; intros reg data acc; [reflexivity|].
+    cbn [cfb_loop]. destruct data as [|y data']; [cbn; rewrite app_nil_r; reflexivity|].
+    destruct (blkE E k reg) as [o|e]; [|reflexivity]. cbn [bind].
+    set (inseg := takeN seg (y :: data')).
+    set (outseg := xor_bytes inseg (takeN (blen inseg) o)).
+    rewrite (IH _ _ (acc ++ outseg)), (IH _ _ ([] ++ outseg)).
+    destruct (cfb_loop E f fb seg k _ (dropN seg (y :: data')) []) as [[o2 r2]|e]; [|reflexivity].
+    cbn [bind app]. rewrite <- app_assoc. reflexivity.
+  Qed.
+
+  Lemma cfb_fuel fb seg k : 0 < seg -> forall f f' reg data acc,
+    (length data < f)%nat -> (length data < f')%nat ->
+    cfb_loop E f fb seg k reg data acc = cfb_loop E f' fb seg k reg data acc.
+  Proof.
+    intro Hs. induction f as [|f IH]; intros f' reg data acc H1 H2; [lia|].
+    destruct f' as [|f']; [lia|].
+    cbn [cfb_loop]. destruct data as [|y data']; [reflexivity|].
+    destruct (blkE E k reg) as [o|e]; [|reflexivity]. cbn [bind].
+    assert (Hl : (length (dropN seg (y :: data')) < length (y :: data'))%nat).
+    { rewrite dropN_skipn, skipn_length. cbn [length]. lia. }
+    apply IH; lia.
+  Qed.
+
+  Lemma mod_sub_unit a u : 0 < u -> a mod u = 0 -> 0 < a -> u <= a /\ (a - u) mod u = 0.
+  Proof.
+    intros Hu Hm Ha. pose proof (N.div_mod a u ltac:(lia)) as Hd. rewrite Hm in Hd.
+    assert (Hq : 0 < a / u) by (destruct (a / u); lia).
+    split; [nia|].
+    replace (a - u) with ((a / u - 1) * u) by nia. apply N.mod_mul. lia.
+  Qed.
+
+  Lemma cfb_app fb seg k : 0 < seg -> forall f1 x1 x2 reg f f2,
+    blen x1 mod seg = 0 ->
+    (length x1 < f1)%nat -> (length (x1 ++ x2) < f)%nat -> (length x2 < f2)%nat ->
+    cfb_loop E f fb seg k reg (x1 ++ x2) [] =
+    let* (o1, reg1) := cfb_loop E f1 fb seg k reg x1 [] in
+    let* (o2, reg2) := cfb_loop E f2 fb seg k reg1 x2 [] in
+    Ok (o1 ++ o2, reg2).
+  Proof.
+    intro Hs. induction f1 as [|f1 IH]; intros x1 x2 reg f f2 Hm H1 H H2; [lia|].
+    destruct x1 as [|y x1'].
+    - cbn [app cfb_loop bind]. rewrite (cfb_fuel fb seg k Hs f f2) by (cbn [app] in H; lia).
+      destruct (cfb_loop E f2 fb seg k reg x2 []) as [[o2 r2]|e]; reflexivity.
+    - destruct f as [|f]; [lia|].
+      assert (Hpos : 0 < blen (y :: x1')) by (rewrite blen_cons; lia).
+      destruct (mod_sub_unit _ _ Hs Hm Hpos) as [Hge Hm'].
+      cbn [cfb_loop]. change ((y :: x1') ++ x2) with (y :: (x1' ++ x2)).
+      destruct (blkE E k reg) as [o|e]; [|reflexivity]. cbn [bind].
+      change (y :: (x1' ++ x2)) with ((y :: x1') ++ x2).
+      rewrite (takeN_app_le seg (y :: x1') x2 Hge), (dropN_app_le seg (y :: x1') x2 Hge).
+      set (inseg := takeN seg (y :: x1')).
+      set (outseg := xor_bytes inseg (takeN (blen inseg) o)).
+      set (reg' := dropN (blen (if fb then outseg else inseg)) reg ++ (if fb then outseg else inseg)).
+      rewrite (cfb_acc fb seg k f reg' _ ([] ++ outseg)), (cfb_acc fb seg k f1 reg' _ ([] ++ outseg)).
+      assert (Hl : length (dropN seg (y :: x1')) = (length (y :: x1') - N.to_nat seg)%nat)
+        by (apply dropN_length; exact Hge).
+      rewrite (IH (dropN seg (y :: x1')) x2 reg' f f2).
+      2:{ rewrite dropN_blen_le by exact Hge. exact Hm'. }
+      2:{ cbn [length] in *. lia. }
+      2:{ rewrite !app_length in *. cbn [length] in *. lia. }
+      2:{ exact H2. }
+      destruct (cfb_loop E f1 fb seg k reg' (dropN seg (y :: x1')) []) as [[o1 r1]|e]; [|reflexivity].
+      cbn [bind].
+      destruct (cfb_loop E f2 fb seg k r1 x2 []) as [[o2 r2]|e]; [|reflexivity].
+      cbn [bind app]. rewrite app_assoc. reflexivity.
+  Qed.
+
+  Lemma cfb_hom d s k st x1 x2 :
+    blen x1 mod seg_of s = 0 -> blen x2 mod seg_of s = 0 ->
+    mode_crypt E D d (CFB s) k st (x1 ++ x2) =
+    let* (o1, st1) := mode_crypt E D d (CFB s) k st x1 in
+    let* (o2, st2) := mode_crypt E D d (CFB s) k st1 x2 in
+    Ok (o1 ++ o2, st2).
+  Proof.
+    intros H1 H2. pose proof (seg_of_pos s) as Hs.
+    assert (H12 : blen (x1 ++ x2) mod seg_of s = 0).
+    { rewrite blen_app, N.add_mod, H1, H2 by lia. apply N.mod_0_l. lia. }
+    destruct d; cbn [mode_crypt mode_encrypt mode_decrypt]; rewrite H1, H12; cbn [N.eqb negb].
+    - rewrite (cfb_app true (seg_of s) k Hs (S (length x1)) x1 x2 (m_reg st) _ (S (length x2)) H1) by lia.
+      destruct (cfb_loop E (S (length x1)) true (seg_of s) k (m_reg st) x1 []) as [[o1 r1]|e]; [|reflexivity].
+      cbn [bind m_reg m_rem]. rewrite H2. cbn [N.eqb negb].
+      destruct (cfb_loop E (S (length x2)) true (seg_of s) k r1 x2 []) as [[o2 r2]|e]; reflexivity.
+    - rewrite (cfb_app false (seg_of s) k Hs (S (length x1)) x1 x2 (m_reg st) _ (S (length x2)) H1) by lia.
+      destruct (cfb_loop E (S (length x1)) false (seg_of s) k (m_reg st) x1 []) as [[o1 r1]|e]; [|reflexivity].
+      cbn [bind m_reg m_rem]. rewrite H2. cbn [N.eqb negb].
+      destruct (cfb_loop E (S (length x2)) false (seg_of s) k r1 x2 []) as [[o2 r2]|e]; reflexivity.
+  Qed.
+
+  (* ---- CTR: key stream refilled block by block ------------------------------------------------- *)
+
+  Lemma xor_bytes_app : forall a p b q, length a = length p ->
+    xor_bytes (a ++ b) (p ++ q) = xor_bytes a p ++ xor_bytes b q.
+  Proof.
+    induction a as [|x a IH]; intros [|y p] b q H; cbn in H; try lia; [reflexivity|].
+    cbn [app xor_bytes]. f_equal. apply IH. lia.
+  Qed.
+  Lemma xor_bytes_nil_r a : xor_bytes a [] = [].
+  Proof. destruct a; reflexivity. Qed.
+  Lemma xor_bytes_app_r a p q : length a = length p -> xor_bytes a (p ++ q) = xor_bytes a p.
+  Proof.
+    intro H. rewrite <- (app_nil_r a) at 1. rewrite xor_bytes_app by exact H.
+    cbn [xor_bytes]. apply app_nil_r.
+  Qed.
+  Lemma xor_bytes_len_le : forall a b, (length a <= length b)%nat -> length (xor_bytes a b) = length a.
+  Proof.
+    induction a as [|x a IH]; intros [|y b] H; cbn in *; try lia. rewrite IH by lia. reflexivity.
+  Qed.
+
+  Lemma counter_increment_length c : length (counter_increment c) = length c.
+  Proof. apply counter_increment_spec. Qed.
+
+  Lemma ctr_fill_len k : forall f ctr rem need c r,
+    ctr_fill E f k ctr rem need = Ok (c, r) -> length c = length ctr.
+  Proof.
+    induction f as [|f IH]; intros ctr rem need c r H; [discriminate|].
+    cbn [ctr_fill] in H. destruct (blen rem <? need).
+    - destruct (blkE E k ctr) as [o|e]; [|discriminate]. cbn [bind] in H.
+      rewrite (IH _ _ _ _ _ H). apply counter_increment_length.
+    - inversion H; subst. reflexivity.
+  Qed.
+  Lemma ctr_fill_ge k : forall f ctr rem need c r,
+    ctr_fill E f k ctr rem need = Ok (c, r) -> need <= blen r.
+  Proof.
+    induction f as [|f IH]; intros ctr rem need c r H; [discriminate|].
+    cbn [ctr_fill] in H. destruct (blen rem <? need) eqn:El.
+    - destruct (blkE E k ctr) as [o|e]; [|discriminate]. cbn [bind] in H. exact (IH _ _ _ _ _ H).
+    - inversion H; subst. apply N.ltb_ge in El. exact El.
+  Qed.
+  Lemma ctr_fill_mono k : forall f ctr rem need x,
+    ctr_fill E f k ctr rem need = Ok x -> forall f', (f <= f')%nat -> ctr_fill E f' k ctr rem need = Ok x.
+  Proof.
+    induction f as [|f IH]; intros ctr rem need x H f' Hf; [discriminate|].
+    destruct f' as [|f']; [lia|]. cbn [ctr_fill] in *. destruct (blen rem <? need); [|exact H].
+    destruct (blkE E k ctr) as [o|e]; [|discriminate]. cbn [bind] in *. apply (IH _ _ _ _ H). lia.
+  Qed.
+  Lemma ctr_fill_det k f f' ctr rem need x y :
+    ctr_fill E f k ctr rem need = Ok x -> ctr_fill E f' k ctr rem need = Ok y -> x = y.
+  Proof.
+    intros Hx Hy.
+    pose proof (ctr_fill_mono k f ctr rem need x Hx (max f f') ltac:(lia)) as H1.
+    pose proof (ctr_fill_mono k f' ctr rem need y Hy (max f f') ltac:(lia)) as H2.
+    congruence.
+  Qed.
+
+  (* a prefix of the remaining key stream that is already paid for does not matter *)
+  Lemma ctr_fill_prefix k p : forall f c r n,
+    ctr_fill E f k c (p ++ r) (blen p + n) =
+    let* (c', r') := ctr_fill E f k c r n in Ok (c', p ++ r').
+  Proof.
+    induction f as [|f IH]; intros c r n; [reflexivity|].
+    cbn [ctr_fill]. rewrite blen_app.
+    replace (blen p + blen r <? blen p + n) with (blen r <? n).
+    2:{ destruct (blen r <? n) eqn:H1; symmetry; [apply N.ltb_lt in H1; apply N.ltb_lt|
+                                                   apply N.ltb_ge in H1; apply N.ltb_ge]; lia. }
+    destruct (blen r <? n); [|reflexivity].
+    destruct (blkE E k c) as [o|e]; [|reflexivity]. cbn [bind].
+    rewrite <- app_assoc. apply IH.
+  Qed.
+
+  (* filling up to n1 + n2 passes through the state reached when filling up to n1 *)
+  Lemma ctr_fill_split k n1 n2 : forall f ctr rem c r,
+    ctr_fill E f k ctr rem (n1 + n2) = Ok (c, r) ->
+    exists c1 r1, ctr_fill E f k ctr rem n1 = Ok (c1, r1) /\ ctr_fill E f k c1 r1 (n1 + n2) = Ok (c, r).
+  Proof.
+    induction f as [|f IH]; intros ctr rem c r H; [discriminate|].
+    cbn [ctr_fill] in H |- *.
+    destruct (blen rem <? n1) eqn:E1.
+    - replace (blen rem <? n1 + n2) with true in H
+        by (symmetry; apply N.ltb_lt; apply N.ltb_lt in E1; lia).
+      destruct (blkE E k ctr) as [o|e]; [|discriminate]. cbn [bind] in *.
+      destruct (IH _ _ _ _ H) as (c1 & r1 & H1 & H2).
+      exists c1, r1. split; [exact H1|].
+      apply (ctr_fill_mono k f _ _ _ _ H2 (S f)). lia.
+    - exists ctr, rem. split; [reflexivity|]. cbn [ctr_fill]. exact H.
+  Qed.
+
+  Section CtrOk.
+    Hypothesis E_len : forall k b, length b = 16%nat -> length (E k b) = 16%nat.
+
+    Lemma ctr_fill_ok k : forall f ctr rem need, length ctr = 16%nat ->
+      need <= blen rem + N.of_nat f ->
+      exists c r, ctr_fill E (S f) k ctr rem need = Ok (c, r).
+    Proof.
+      induction f as [|f IH]; intros ctr rem need Hc Hn.
+      - cbn [ctr_fill]. replace (blen rem <? need) with false by (symmetry; apply N.ltb_ge; lia).
+        eauto.
+      - cbn [ctr_fill]. destruct (blen rem <? need) eqn:El; [|eauto].
+        unfold blkE. replace (blen ctr =? 16) with true by (symmetry; apply N.eqb_eq; unfold blen; lia).
+        cbn [bind].
+        apply IH; [rewrite counter_increment_length; exact Hc|].
+        rewrite blen_app. unfold blen at 2. rewrite (E_len k ctr Hc). lia.
+    Qed.
+
+    Lemma ctr_hom d k st x1 x2 : length (m_reg st) = 16%nat ->
+      mode_crypt E D d CTR k st (x1 ++ x2) =
+      let* (o1, st1) := mode_crypt E D d CTR k st x1 in
+      let* (o2, st2) := mode_crypt E D d CTR k st1 x2 in
+      Ok (o1 ++ o2, st2).
+    Proof.
+      intro Hreg.
+      assert (H : mode_encrypt E CTR k st (x1 ++ x2) =
+                  let* (o1, st1) := mode_encrypt E CTR k st x1 in
+                  let* (o2, st2) := mode_encrypt E CTR k st1 x2 in Ok (o1 ++ o2, st2));
+        [|destruct d; exact H].
+      cbn [mode_encrypt]. set (n1 := blen x1). set (n2 := blen x2).
+      set (F := S (length (x1 ++ x2))).
+      destruct (ctr_fill_ok k (length x1) (m_reg st) (m_rem st) n1 Hreg ltac:(unfold n1, blen; lia))
+        as (c1 & r1 & H1).
+      pose proof (ctr_fill_len k _ _ _ _ _ _ H1) as Hc1. rewrite Hreg in Hc1.
+      pose proof (ctr_fill_ge k _ _ _ _ _ _ H1) as Hg1.
+      set (p := takeN n1 r1). set (q := dropN n1 r1).
+      assert (Hpq : r1 = p ++ q) by (symmetry; apply takeN_dropN).
+      assert (Hp : blen p = n1) by (apply takeN_blen_le; exact Hg1).
+      destruct (ctr_fill_ok k (length x2) c1 q n2 Hc1 ltac:(unfold n2, blen; lia)) as (c2 & r2 & H2).
+      pose proof (ctr_fill_ge k _ _ _ _ _ _ H2) as Hg2.
+      (* the one-call fill *)
+      destruct (ctr_fill_ok k (length (x1 ++ x2)) (m_reg st) (m_rem st) (n1 + n2) Hreg
+                  ltac:(unfold n1, n2, blen; rewrite app_length; lia)) as (c & r & H12).
+      fold F in H12.
+      destruct (ctr_fill_split k n1 n2 F _ _ _ _ H12) as (c1' & r1' & Ha & Hb).
+      assert (Heq : (c1', r1') = (c1, r1)) by (exact (ctr_fill_det k _ _ _ _ _ _ _ Ha H1)).
+      inversion Heq; subst c1' r1'. clear Heq Ha.
+      rewrite Hpq, <- Hp, ctr_fill_prefix in Hb.
+      rewrite (ctr_fill_mono k _ _ _ _ _ H2 F) in Hb by (unfold F; rewrite app_length; lia).
+      cbn [bind] in Hb. inversion Hb; subst c r. clear Hb.
+      replace (blen (x1 ++ x2)) with (n1 + n2) by (unfold n1, n2; rewrite blen_app; reflexivity).
+      rewrite H12, H1. cbn [bind m_reg m_rem].
+      assert (Hx1 : length x1 = length p) by (unfold n1, blen in Hp; lia).
+      assert (O1 : xor_bytes x1 r1 = xor_bytes x1 p) by (rewrite Hpq; apply xor_bytes_app_r, Hx1).
+      assert (L1 : blen (xor_bytes x1 r1) = n1).
+      { rewrite O1. unfold blen. rewrite xor_bytes_len_le by lia. unfold n1, blen. reflexivity. }
+      rewrite L1. fold q. rewrite H2. cbn [bind].
+      assert (Lx2 : (length x2 <= length r2)%nat) by (unfold n2, blen in Hg2; lia).
+      assert (L2 : blen (xor_bytes x2 r2) = n2).
+      { unfold blen. rewrite xor_bytes_len_le by exact Lx2. reflexivity. }
+      rewrite L2.
+      rewrite xor_bytes_app by exact Hx1.
+      assert (L12 : blen (xor_bytes x1 p ++ xor_bytes x2 r2) = n1 + n2).
+      { rewrite blen_app. rewrite <- O1, L1, L2. reflexivity. }
+      rewrite L12, O1. f_equal. f_equal. f_equal.
+      rewrite dropN_add. rewrite <- Hp at 1. rewrite dropN_app_exact. reflexivity.
+    Qed.
+  End CtrOk.
+
+  (* ---- every mode: chunking does not matter ------------------------------------------------------ *)
+  Section AllModes.
+    Hypothesis E_len : forall k b, length b = 16%nat -> length (E k b) = 16%nat.
+
+    Definition ctr_ready (m : mode) (st : mstate) : Prop := m = CTR -> length (m_reg st) = 16%nat.
+
+    Lemma unit_hom m d k st x1 x2 : is_unit m -> ctr_ready m st ->
+      blen x1 mod unit_of m = 0 -> blen x2 mod unit_of m = 0 ->
+      mode_crypt E D d m k st (x1 ++ x2) =
+      let* (o1, st1) := mode_crypt E D d m k st x1 in
+      let* (o2, st2) := mode_crypt E D d m k st1 x2 in
+      Ok (o1 ++ o2, st2).
+    Proof.
+      intros Hm HI H1 H2. destruct m; cbn [is_unit] in Hm; try contradiction.
+      - apply cfb_hom; assumption.
+      - apply ofb_hom.
+      - apply ctr_hom; [exact E_len | apply HI; reflexivity].
+    Qed.
+
+    Lemma crypt_ctr_ready m d k st x o st' :
+      ctr_ready m st -> mode_crypt E D d m k st x = Ok (o, st') -> ctr_ready m st'.
+    Proof.
+      intros HI H Hm. subst m. specialize (HI eq_refl).
+      assert (H' : mode_encrypt E CTR k st x = Ok (o, st')) by (destruct d; exact H).
+      cbn [mode_encrypt] in H'.
+      destruct (ctr_fill E (S (length x)) k (m_reg st) (m_rem st) (blen x)) as [[c r]|e] eqn:Ef; [|discriminate].
+      cbn [bind] in H'. inversion H'; subst. cbn [m_reg].
+      rewrite (ctr_fill_len k _ _ _ _ _ _ Ef). exact HI.
+    Qed.
+
+    Lemma drainF_ctr_ready m d k st buf o st' r : is_unit m ->
+      ctr_ready m st -> drainF E D m d k st buf = Ok (o, st', r) -> ctr_ready m st'.
+    Proof.
+      intros Hm HI H. rewrite (drainF_unit m d k st buf Hm) in H.
+      destruct (16 <? blen buf); [|inversion H; subst; exact HI].
+      cbv zeta in H. destruct (unit_of m * ((blen buf - 16) / unit_of m) =? 0); [inversion H; subst; exact HI|].
+      destruct (mode_crypt E D d m k st _) as [[o1 st1]|e] eqn:Ec; [|discriminate].
+      cbn [bind] in H. inversion H; subst. exact (crypt_ctr_ready _ _ _ _ _ _ _ HI Ec).
+    Qed.
+
+    Theorem unit_feed_all_split m d pad k : is_unit m -> forall chunks st, ctr_ready m st ->
+      feed_all E D m d pad k (feeder_new st) chunks = feed_all E D m d pad k (feeder_new st) [concat chunks].
+    Proof.
+      intros Hm chunks st HI. unfold feeder_new.
+      apply (feed_all_split E D m d pad k (ctr_ready m)).
+      - intros st0 buf b HI0. apply (unit_resume m d k (ctr_ready m) Hm); [|exact HI0].
+        intros st1 x1 x2 HI1 H1 H2. apply unit_hom; assumption.
+      - intros st0 buf o st' r HI0 Hd. exact (drainF_ctr_ready m d k st0 buf o st' r Hm HI0 Hd).
+      - exact HI.
+      - left. reflexivity.
+    Qed.
+
+    (* Encrypter / Decrypter on a fresh mode object, every mode, direction and padding option:
+       feeding the chunks one by one returns, in total, what feeding everything at once returns *)
+    Theorem stream_crypt_split m d pad k iv ctr chunks :
+      stream_crypt E D m d pad k iv ctr chunks = stream_crypt E D m d pad k iv ctr [concat chunks].
+    Proof.
+      unfold stream_crypt.
+      destruct (mode_init m k iv ctr) as [st|e] eqn:Ei; [|reflexivity]. cbn [bind].
+      destruct m.
+      - apply block_feed_all_split. left; reflexivity.
+      - apply block_feed_all_split. right; reflexivity.
+      - apply unit_feed_all_split; [exact I|]. intro H; discriminate H.
+      - apply unit_feed_all_split; [exact I|]. intro H; discriminate H.
+      - apply unit_feed_all_split; [exact I|]. intros _.
+        cbn [mode_init] in Ei. destruct (key_ok k); [|discriminate]. inversion Ei; subst.
+        cbn [m_reg]. apply be_length.
+    Qed.
+  End AllModes.
+End Units.
